@@ -20,7 +20,7 @@ var c13Cfg = mwCfg{
 	acyclicRequire: true,
 	handlers:       true, pVeto: 12, pHandlerYield: 3, pHandlerMut: 12,
 	minTasks: 1, maxTasks: 2, minOps: 1, maxOps: 6,
-	menu:    []opKind{opAdd, opAdd, opRemove, opSet, opToggle, opEval, opCanAdd, opAddErr},
+	menu:    []opKind{opAdd, opAdd, opRemove, opSet, opToggle, opEval, opCanAdd, opAddErr, opCantAdd},
 	pNoArgs: 3,
 	hooks: []string{"pq.beforeSubs", "pq.exit", "qm.appended", "pq.lost",
 		"dispose.fork", "dispose.cas", "dispose.idle"},
